@@ -322,7 +322,7 @@ def run_main(spec, acc):
 def run_inline(spec, acc):
   for _, rng in acc.cases(spec):
     which = rng.choice(['outer', 'outer', 'outer_pos', 'direct', 'direct_pos', 'direct_po_gap',
-                        'direct_shared_argument', 'direct_shared_argument'])
+                        'direct_shared_argument', 'direct_shared_argument', 'partials', 'chain'])
     acc.obs('inline_cases')
     v = rng.choice([1, 'v', (1, 2)])
     try:
@@ -342,6 +342,16 @@ def run_inline(spec, acc):
                             lambda: fdl.Config(acfns.pipeline_pos, 'n', 3, tok, a=tok)])()
         cfg = fdl.Config(kinds.three, a=inner, b=tok, c=[tok])
         acc.obs('inline_with_argument_shared_with_the_rest_of_the_tree')
+      elif which == 'partials':
+        cfg = fdl.Config(kinds.three, a=fdl.Config(acfns.pipeline_partials, v),
+                         b=fdl.Config(acfns.pipeline_partials, 'n', act=v))
+        acc.obs('inline_of_bodies_specialising_one_partial_twice')
+      elif which == 'chain':
+        # the partial handed to the inlined call is used by another node of the tree as well
+        tok = fdl.Partial(kinds.two, x=v)
+        cfg = fdl.Config(kinds.three, a=fdl.Config(acfns.pipeline_chain, tok), b=tok,
+                         c=fdl.Config(acfns.pipeline_chain, tok, scale=5))
+        acc.obs('inline_of_bodies_specialising_one_partial_twice')
       elif which == 'direct_po_gap':
         inner = fdl.Config(acfns.pipeline_po, v)
         inner[2] = 500                      # later positional-only set, earlier one left unset
